@@ -12,7 +12,8 @@ CLAIMED = {
         "category": "exploration",
         "text": "Bounded-exhaustive: every pair of plane binary shapes (quick: <=4 object x <=3 species leaves; thorough: "
                 "<=4x<=4 on the full coherent {0,1,2}^3 x {0,1,2,inf} cost grid, 5x<=4 on six vectors, <=3x5..6 on the core menu), "
-                "every leaf assignment (hence every pattern of empty species), thl and exh under ALL and ANY, generate_all per input; "
+                "every leaf assignment (hence every pattern of empty species), thl and exh under ALL and ANY (menus include transfers far dearer than a duplication: 4x4 leaves at hgt 8), "
+                "generate_all per input under five cost vectors (hgt=inf, zeros, incoherent); "
                 "oracle = brute force over all |S|^internal mappings. Complete within the slices, silent about larger inputs.",
         "design_ref": "6 (C01), 4, 5",
         "note": "Trusted: refmodel/dtl.py (cross-validated brute force <-> Bellman), ete3 container, CPython. Cost vectors "
@@ -33,6 +34,7 @@ CLAIMED = {
     "C03": {
         "category": "exploration",
         "text": "Bounded-exhaustive over unordered labelled inputs: quick <=3x<=3 leaves x all subsets of 3 families and 4x<=2x2 families; "
+                "plus chains of 5 leaves on one species x 3 families and chains of 4 leaves on a species cherry x 3 families; "
                 "thorough adds 4x<=3x2, 4x<=2x4 families, 5x<=2x2. Oracle searches EVERY admissible labelling (brute force <=4 leaves, "
                 "Bellman at 5), so the solver's restriction to the LCA/INHERIT labellings is itself decided on these slices.",
         "design_ref": "6 (C03), 4.2-4.4, 5",
@@ -43,7 +45,7 @@ CLAIMED = {
     "C04": {
         "category": "exploration",
         "text": "Bounded-exhaustive validity check of every object returned by all seven algorithms under both policies on the P-, O-, U-slices "
-                "and on multifurcating inputs (Schroeder shapes <=3x<=3 leaves; thorough also 4-leaf objects with one 3-ary polytomy) for the "
+                "(incl. 5-leaf chains x 3 families for the unordered solvers) and on multifurcating inputs (Schroeder shapes <=3x<=3 leaves; thorough also 4-leaf objects with one 3-ary polytomy) for the "
                 "extended solvers, with a cost menu that includes sloss=0, all-zero and incoherent vectors; the structural predicate is evaluated "
                 "on the trees each solution refers to.",
         "design_ref": "6 (C04)",
@@ -54,7 +56,7 @@ CLAIMED = {
         "category": "exploration",
         "text": "Bounded-exhaustive comparison of the ALL result with the complete optimal set of the reference models, key for key, "
                 "and of ANY with membership in it, for thl/exh (quick P4x3, thorough P4x4 + 5x<=3) and the four labelled solvers "
-                "(quick O3x2x3, U3x3x3, U4x2x2; thorough O3x3x3, O4x3x2, U4x3x2, U4x2x4, U5x2x2) on a tie-rich coherent cost menu.",
+                "(quick O3x2x3, U3x3x3, U4x2x2, 5-leaf chains x 1 species x 3 families; thorough O3x3x3, O4x3x2, U4x3x2, U4x2x4, U5x2x2) on a tie-rich coherent cost menu.",
         "design_ref": "6 (C05)",
         "note": "Trusted: the reference models' optimal sets (brute force / Bellman, cross-validated). Coherent region only; "
                 "F-COHERENCE set witnesses replayed from known_findings.json.",
@@ -62,8 +64,8 @@ CLAIMED = {
     },
     "C06": {
         "category": "model_checking",
-        "text": "Model-trace conformance: every valid species mapping enumerated by the reference model (quick: inputs <=4x<=3 leaves; "
-                "thorough <=4x<=4 and 5x<=3), every ordered labelling (root abc/ab, each node any non-empty subsequence of its parent's) "
+        "text": "Model-trace conformance: every valid species mapping enumerated by the reference model (quick: inputs <=4x<=3 leaves, 2 object leaves on every species tree with <=6 leaves, 3 on <=5; "
+                "thorough <=4x<=4, 5x<=3, 2x<=7, 3x<=6, 4x5), every ordered labelling (root abc/ab, each node any non-empty subsequence of its parent's) "
                 "and every valid unordered labelling on the small labelled slices is loaded into a real (Super)ReconciliationOutput and "
                 "evaluated by node_event / reconciliation_cost / labeling_cost / cost under 12 cost vectors (incoherent, zero and infinite "
                 "included); states = model solutions, transitions = (solution, vector) evaluations, every trace replayed on the implementation. "
@@ -76,7 +78,9 @@ CLAIMED = {
         "category": "exploration",
         "text": "Bounded-exhaustive: every binary input with <=4x<=4 and 5x<=3 leaves (quick) / 5x<=4, 4x5, 3x6 (thorough), every leaf assignment; "
                 "reconcile_lca's mapping = model LCA mapping, valid, and cheapest among ALL transfer-free valid mappings (enumerated by the model) "
-                "for all 36 (dup, loss) in {0..5}^2, unique when loss > 0; implementation cost = model cost.",
+                "for all 36 (dup, loss) in {0..5}^2, unique when loss > 0; implementation cost = model cost. Operation histories: one species "
+                "tree and one LowestCommonAncestor object (named / unnamed ancestors) shared by every object tree of the bound, the leaf-mapping "
+                "dict updated in place through every assignment, every ordered pair of assignments on small inputs.",
         "design_ref": "6 (C07)",
         "note": "Trusted: refmodel/dtl.py. The comparison with thl at hgt=inf is C10's.",
         "technique": TECH_E2,
@@ -95,7 +99,7 @@ CLAIMED = {
     },
     "C09": {
         "category": "exploration",
-        "text": "Bounded-exhaustive metamorphic check: for every input of the slices (quick: thl on P4x3, ordered O3x2x2, unordered U3x2x3; thorough: "
+        "text": "Bounded-exhaustive metamorphic check: for every input of the slices (quick: thl on P4x3, ordered O3x2x2, unordered U3x2x3, one family on 3x(3..4) leaves; thorough: "
                 "thl on all shapes with 5-6 object leaves x <=3 species leaves and P4x4, O3x3x3, O4x3x2, U3x3x3, U4x2x4), every coherent vector of the "
                 "menu and thl / ext_spfs / base_spfs / superdtl / base_uspfs, the ALL result is compared with the result on every transformation of a "
                 "finite menu (single-node child swaps, mirror, 3 node renamings, 2 family renamings, outgroup on either side, repetition on the same "
@@ -109,7 +113,7 @@ CLAIMED = {
         "category": "exploration",
         "text": "Bounded-exhaustive differential check between the seven algorithms on every consistent labelled input of the slices "
                 "(quick O3x2x3; thorough O3x3x3, O4x3x2) and on every single-family labelling of the P-slices (quick P4x3; thorough P4x4, 5x<=3), "
-                "coherent cost menu: ext <= base, unordered <= ordered, thl <= lca (= at hgt=inf), single family: ext_spfs = superdtl = thl and "
+                "coherent cost menu (with hgt < dup and hgt = 0), both policies: ext <= base, unordered <= ordered, thl <= lca (= at hgt=inf), single family: ext_spfs = superdtl = thl and "
                 "base_spfs = base_uspfs = lca.",
         "design_ref": "6 (C10)",
         "note": "No oracle: compares the implementations' own cost() values (C06 validates those). Coherent cost region only.",
@@ -119,7 +123,7 @@ CLAIMED = {
         "category": "exploration",
         "text": "Bounded-exhaustive round trip X.from_dict(json.loads(json.dumps(x.to_dict()))) for inputs and outputs: every output of all seven "
                 "algorithms on <=3x<=3 inputs, every valid mapping of the P-slice (quick <=3x<=3, thorough <=4x<=3) and every valid unordered / selected "
-                "ordered labelling on <=2 families, crossed with 4 naming schemes (digits, underscores, O#/S# look-alikes), a colour menu on both trees "
+                "ordered labelling on <=2 families, crossed with 5 naming schemes (digits, underscores, O#/S# look-alikes, names differing only by case), a colour menu on both trees "
                 "(all subsets of <=3 object / <=2 species nodes on small trees, root and nested colours) and a float-infinite transfer cost; trees, "
                 "mappings, syntenies, flag, events, cost compared, and to_dict() of the copy reproduced verbatim on the listed fields.",
         "design_ref": "6 (C11)",
@@ -128,24 +132,27 @@ CLAIMED = {
     },
     "C12": {
         "category": "exploration",
-        "text": "Bounded-exhaustive over documented-format input files: every binary input with <=3x<=2 leaves (thorough <=3x<=3 and 4x<=2) x "
-                "ancestor naming patterns of both trees (all/none/each single one unnamed, pre-existing O0/O1/S0/S1, a species leaf named S0) x 7 "
+        "text": "Bounded-exhaustive over documented-format input files: every binary input with <=3x<=2 leaves and 4x1 (thorough <=3x<=3 and 4x<=2) x "
+                "ancestor naming patterns of both trees (all/none/each single one unnamed, pre-existing O0/O1/S0/S1 incl. consecutive and gapped taken numbers, species leaves named S0, S1, ...) x 7 "
                 "algorithms (labelled: consistent synteny tuples on <=2 families) x any/all x 3 cost options (quick rotates the options, thorough "
                 "crosses them), with and without explicit leaf_object_species; `reconcile` and `draw` run in-process, the first cases of each shard "
                 "also as real subprocesses. Verdict on status, one JSON object per line, unique non-empty names with the reference pre-order "
                 "numbering, cost() of each parsed-back object = printed minimum, all contains any, draw accepts each object in both orientations, "
-                "status 1 + empty output without syntenies.",
+                "status 1 + empty output without syntenies. Multifurcating input files (a polytomy in either tree, <=3x<=3 leaves, thorough 4-leaf "
+                "objects with one ternary node) for ext_spfs / superdtl: binary output trees, input clades and their names kept, new ancestors numbered "
+                "by the reference pre-order rule, parse-back cost = printed minimum, all contains any, draw accepts.",
         "design_ref": "6 (C12)",
         "note": "Trusted: the in-process driver (conformance-checked against subprocess runs each run), the stub TeX measurer, ete3's Newick parser.",
         "technique": TECH_E2,
     },
     "C13": {
         "category": "exploration",
-        "text": "Bounded-exhaustive over every valid mapping (model enumerator) of every binary input with <=4x<=3 leaves (thorough <=5x<=3 and "
-                "<=4x4) x {unlabelled, two ordered labellings} x both orientations x 4 stub size functions: one branch per object node in the species "
+        "text": "Bounded-exhaustive over every valid mapping (model enumerator) of every binary input with <=4x<=3, <=3x4, <=2x5..6 leaves (thorough "
+                "<=5x<=3, <=4x4, <=3x5..6) x {unlabelled, two ordered labellings} x both orientations x 4 stub size functions: one branch per object node in the species "
                 "it maps to with the model's event kind, per-species loss counts equal to the model's, transferred child on the right; the TikZ text "
                 "holds the same numbers of event nodes, loss markers and transfer arrows, each arrow ending at the anchor of the transferred child; "
-                "the stub asserts one measured box per branch.",
+                "the stub asserts one measured box per branch. Operation histories: every ordered pair of distinct valid mappings of one input "
+                "(<=3x<=3, thorough <=4x<=3) drawn one after the other on the SAME tree objects.",
         "design_ref": "6 (C13)",
         "note": "Trusted: refmodel/picture.py loss-location rule; stub measurer instead of TeX; the text is scanned, not typeset.",
         "technique": TECH_E2,
@@ -185,7 +192,8 @@ CLAIMED = {
     },
     "C17": {
         "category": "exploration",
-        "text": "Exhaustive over all rooted plane trees of any arity with <= 8 (quick) / 10 (thorough) nodes built through the ete3 API: every "
+        "text": "Exhaustive over all rooted plane trees of any arity with <= 8 (quick) / 10 (thorough) nodes built through the ete3 API (plus edit "
+                "histories: structure built, the same tree object edited by every subtree move / leaf addition / removal, rebuilt; <= 6 / 7 nodes): every "
                 "node, ordered pair and ordered triple for lca / is_ancestor_of / is_strict_ancestor_of / is_comparable / level / distance against "
                 "parent-chain definitions; every array of length <= 10 / 12 over {0,1,2} x every (start, stop) pair for RangeMinQuery.",
         "design_ref": "6 (C17)",
